@@ -80,6 +80,12 @@ class ConstGen:
                 if self.rng.random() < 0.4:
                     w = self.rng.choice([lo, v] if big else [hi, v])
                 others.append(self.expr(t, w, d - 1, not self.wrap_in_minmax))
+            # an earlier constant of the type as one of the other arguments (its value as the constant has it: reduced to
+            # the type, negative if it is negative), when it does not change the result
+            prev = [(vv, n) for (tt, vv), n in self.by_value.items() if tt == t and (vv <= v if big else vv >= v)]
+            if prev and self.rng.random() < 0.5:
+                n = self.rng.choice(prev)[1]
+                others.append((n, ["ident", n]))
             args = others + [self.expr(t, v, d - 1, not self.wrap_in_minmax)]
             self.rng.shuffle(args)
             fn = "max" if big else "min"
@@ -136,6 +142,18 @@ class ConstGen:
 UNS_SMALL = [1, 2, 3, 4, 5]
 
 
+def INT(t):
+    return {"k": "int", "t": t}
+
+
+def ARR(elem, n):
+    return {"k": "array", "elem": elem, "n": n}
+
+
+def TUP(*ts):
+    return {"k": "tuple", "ts": list(ts)}
+
+
 def gen_size_case(seed, cid):
     """array sizes, trip counts and the number of parties come from constants"""
     rng = random.Random(seed)
@@ -145,7 +163,7 @@ def gen_size_case(seed, cid):
     N = cg.const("usize", n)
     elem = tg.ty(rng.choice([0, 0, 1]))
     et = T.ty_str(elem)
-    kind = rng.choice(["parties", "fold", "repeat", "two-sizes", "const-expr-size", "const-expr-size"])
+    kind = rng.choice(["parties", "fold", "repeat", "repeat-untyped", "two-sizes", "const-expr-size", "const-expr-size"])
     defs = tg.defs_src()
     one_party = False
     if kind == "const-expr-size":
@@ -166,12 +184,14 @@ def gen_size_case(seed, cid):
             a = f"pub fn main(arr: [{et}; {sz}]) -> (u16, [{et}; {sz}]) {{ {body} }}\n"
             b = f"pub fn main(arr: [{et}; {szb}]) -> (u16, [{et}; {szb}]) {{ {body} }}\n"
             params = [["arr", {"k": "array", "elem": elem, "n": n}]]
+            ret = TUP(INT("u16"), ARR(elem, n))
             one_party = True
         else:
             body = "let b: [{et}; {sz}] = arr; let mut c = 0u8; for e in b {{ c = c + 1u8; }} (b[i], c, arr)"
             a = f"pub fn main(arr: [{et}; {sz}], i: usize) -> ({et}, u8, [{et}; {sz}]) {{ " + body.format(et=et, sz=sz) + " }\n"
             b = f"pub fn main(arr: [{et}; {szb}], i: usize) -> ({et}, u8, [{et}; {szb}]) {{ " + body.format(et=et, sz=szb) + " }\n"
             params = [["arr", {"k": "array", "elem": elem, "n": n}], ["i", {"k": "int", "t": "usize"}]]
+            ret = TUP(elem, INT("u8"), ARR(elem, n))
         kind += ":" + tree[0]
     if kind.startswith("const-expr-size"):
         pass
@@ -180,15 +200,38 @@ def gen_size_case(seed, cid):
         a = f"pub fn main(arr: [{et}; {N}]) -> (u16, [{et}; {N}]) {{ {body} }}\n"
         b = f"pub fn main(arr: [{et}; {n}]) -> (u16, [{et}; {n}]) {{ {body} }}\n"
         params = [["arr", {"k": "array", "elem": elem, "n": n}]]
+        ret = TUP(INT("u16"), ARR(elem, n))
     elif kind == "fold":
         body = f"let mut acc = x; let mut last = arr[0usize]; for e in arr {{ acc = acc ^ 1u32; last = e; }} (acc, last, arr[{n - 1}usize])"
         a = f"pub fn main(arr: [{et}; {N}], x: u32) -> (u32, {et}, {et}) {{ {body} }}\n"
         b = f"pub fn main(arr: [{et}; {n}], x: u32) -> (u32, {et}, {et}) {{ {body} }}\n"
         params = [["arr", {"k": "array", "elem": elem, "n": n}], ["x", {"k": "int", "t": "u32"}]]
+        ret = TUP(INT("u32"), elem, elem)
+    elif kind == "repeat-untyped":
+        # `[7; N]` with a number without a suffix where the type of the array is known from the context: the element
+        # takes the element type of the context (an annotated let, the return value, a tuple field, an argument)
+        it = rng.choice(["u8", "u16", "u64", "i8", "i16", "i64", "u32", "usize"])
+        elem = {"k": "int", "t": it}
+        lit = rng.choice([0, 1, 7, 100])
+        shape = rng.choice(["let", "ret", "field", "nested"])
+        if shape == "let":
+            tpl = "pub fn main(x: {it}, i: usize) -> ([{it}; {N}], {it}) {{ let mut arr: [{it}; {N}] = [{lit}; {N}]; arr[0usize] = x; (arr, arr[i]) }}\n"
+        elif shape == "ret":
+            tpl = "pub fn main(x: {it}, i: usize) -> ([{it}; {N}], {it}) {{ let r: ([{it}; {N}], {it}) = ([{lit}; {N}], x); r }}\n"
+        elif shape == "field":
+            tpl = "pub fn main(x: {it}, i: usize) -> ([{it}; {N}], {it}) {{ ([{lit}; {N}], x) }}\n"
+        else:
+            tpl = "pub fn main(x: {it}, i: usize) -> ([{it}; {N}], {it}) {{ let a: [[{it}; {N}]; 2] = [[{lit}; {N}]; 2]; (a[1usize], x) }}\n"
+        a = tpl.format(it=it, N=N, lit=lit)
+        b = tpl.format(it=it, N=n, lit=lit)
+        params = [["x", elem], ["i", {"k": "int", "t": "usize"}]]
+        ret = TUP(ARR(elem, n), elem)
+        kind += ":" + shape
     elif kind == "repeat":
         a = f"pub fn main(x: {et}, i: usize) -> ([{et}; {N}], {et}) {{ let arr = [x; {N}]; (arr, arr[i]) }}\n"
         b = f"pub fn main(x: {et}, i: usize) -> ([{et}; {n}], {et}) {{ let arr = [x; {n}]; (arr, arr[i]) }}\n"
         params = [["x", elem], ["i", {"k": "int", "t": "usize"}]]
+        ret = TUP(ARR(elem, n), elem)
     else:
         m = rng.choice(UNS_SMALL)
         M = cg.const("usize", m)
@@ -196,6 +239,7 @@ def gen_size_case(seed, cid):
         a = f"pub fn main(p: [{et}; {N}], q: [bool; {M}]) -> (u8, [{et}; {N}], [bool; {M}]) {{ {body} }}\n"
         b = f"pub fn main(p: [{et}; {n}], q: [bool; {m}]) -> (u8, [{et}; {n}], [bool; {m}]) {{ {body} }}\n"
         params = [["p", {"k": "array", "elem": elem, "n": n}], ["q", {"k": "array", "elem": {"k": "bool"}, "n": m}]]
+        ret = TUP(INT("u8"), ARR(elem, n), ARR({"k": "bool"}, m))
     args = []
     for _ in range(4):
         vals = []
@@ -206,7 +250,7 @@ def gen_size_case(seed, cid):
             vals.append(v)
         args.append(vals)
     return {"id": cid, "seed": seed, "kind": "size:" + kind, "src_a": cg.decl_text() + defs + a, "src_b": defs + b, "params": params,
-            "args": args, "cg": cg, "one_party": one_party}
+            "args": args, "cg": cg, "one_party": one_party, "ret": ret}
 
 
 def gen_value_case(seed, cid, wrap_in_minmax=False):
@@ -273,6 +317,15 @@ def run(ctx):
                   "src_a": "const C: u8 = max(PARTY_0::A + 200u8, 50u8);\npub fn main(x: u8) -> u8 { x ^ C }\n",
                   "src_b": "pub fn main(x: u8) -> u8 { x ^ 50u8 }\n", "params": [["x", {"k": "int", "t": "u8"}]], "args": [[0], [255]], "cg": cg})
 
+    # a negative constant referred to by a later constant under max / min
+    for k, (xa, fn, other, want) in enumerate([(-3, "max", 0, 0), (-100, "min", -7, -100), (-1, "max", -128, -1)]):
+        cg3 = ConstGen(random.Random(0))
+        cg3.decls.append(("A", "i8", "PARTY_0::X", ["ext", "PARTY_0", "X"]))
+        cg3.decls.append(("B", "i8", f"{fn}(A, {other}i8)", [fn]))
+        cg3.supplied = {"PARTY_0": {"X": ("i8", xa)}}
+        cases.append({"id": max(c["id"] for c in cases) + 1, "seed": 0, "kind": "value-signed-const-ref-under-minmax",
+                      "src_a": f"const A: i8 = PARTY_0::X;\nconst B: i8 = {fn}(A, {other}i8);\npub fn main(x: i8) -> i8 {{ x ^ B }}\n",
+                      "src_b": f"pub fn main(x: i8) -> i8 {{ x ^ {want}i8 }}\n", "params": [["x", {"k": "int", "t": "i8"}]], "args": [[0], [-1]], "cg": cg3})
     # a constant whose own definition wraps, referred to by a later constant under max (repaired defect 7d34fdc)
     cg2 = ConstGen(random.Random(0))
     cg2.decls.append(("A", "u8", "PARTY_0::X + 200u8", ["add"]))
